@@ -25,12 +25,12 @@ def export_histories(kind, tier):
     return [json.loads(l) for l in open(path)]
 
 
-def random_history(r, length):
+def random_history(r, length, no_dtype=False):
     """Seeded histories; enabledness of copy-related actions is tracked, resize validity is decided by the specification."""
     shapes = [[6], [2, 3], [3, 2], [1, 6], [6, 1], [2, 2], [3, 3], [4, 2], [2, 3, 1], [1, 2, 3], [2, 2, 2], [1], [5], [2, 1], [3, 1, 2], [1, 1, 1, 6]]
     h = []; has_copy = False
     for step in range(1, length + 1):
-        op = r.choice(["resize", "resize", "write", "write", "copy", "assign", "assign_back", "write_copy", "drop_copy"])
+        op = r.choice(["resize", "resize", "write", "write", "copy", "assign", "assign_back", "write_copy", "drop_copy", "cast_dtype", "cast_kind"])
         if op == "resize": h.append(dict(op="resize", shape=r.choice(shapes)))
         elif op == "write": h.append(dict(op="write", k=0, v=5000 + step))
         elif op == "copy" and not has_copy: h.append(dict(op="copy")); has_copy = True
@@ -38,6 +38,8 @@ def random_history(r, length):
         elif op == "assign_back" and has_copy: h.append(dict(op="assign_back"))
         elif op == "write_copy" and has_copy: h.append(dict(op="write_copy", k=0, v=7000 + step))
         elif op == "drop_copy" and has_copy: h.append(dict(op="drop_copy")); has_copy = False
+        elif op == "cast_dtype" and not no_dtype: h.append(dict(op="cast_dtype", t=r.choice(["f64", "f32", "i8", "u8", "i16"])))
+        elif op == "cast_kind": h.append(dict(op="cast_kind", k=r.choice(["dynamic", "nd_dyn"])))
     # values must follow the step numbering of the machine
     for i, a in enumerate(h, 1):
         if a["op"] == "write": a["v"] = 5000 + i
@@ -78,15 +80,18 @@ def run(tier, seed):
     for kind in KINDS:
         ck.add_mc(vlib.tlc_model_check("MC_NdArray", f"MC_NdArray_{kind}_{tier}", workers=4, timeout=2400))
         hs = export_histories(kind, tier)
-        if kind == "fixbuf_const":
-            # a constant-shape ndarray_t has no resize member at all (compile-time rejection): histories without resize only
+        if kind.startswith("boundbuf"):
+            # an element-type cast of an ndarray_t over a bounded buffer does not compile (loud limitation): histories without it
+            hs = [h for h in hs if all(a["op"] != "cast_dtype" for a in h)]
+        if kind in ("fixbuf_const", "legacy_fixed"):
+            # a constant-shape ndarray_t / fixed_ndarray has no resize member at all (compile-time rejection): histories without resize only
             hs = [h for h in hs if all(a["op"] != "resize" for a in h)]
         else:
             for _ in range(60 if quick else 600):
-                hs.append(random_history(ck.rng, ck.rng.randint(3, 6)))
+                hs.append(random_history(ck.rng, ck.rng.randint(3, 6), no_dtype=kind.startswith("boundbuf")))
         cases = []
         for i, h in enumerate(hs):
-            for layout in ("C", "F"):
+            for layout in (("C",) if kind.startswith("legacy") else ("C", "F")):
                 cases.append(dict(id=len(cases) + 1, kind=kind, layout=layout, init=INIT, h=h))
         total += len(cases)
         files = vlib.run_driver(drv, cases, ck.workdir, "nd_" + kind)
@@ -114,13 +119,14 @@ def run(tier, seed):
     total += len(mc)
     ck.nontrivial_count = total
     ck.rule = ("histories = one per explored transition of the array-object machine (TLC; resize to every shape of the scope incl. shapes that exceed a fixed/bounded buffer, "
-               "change the dimension or exceed a clipped bound; element writes; copy, assign in both directions, writes to the copy) for 12 ndarray_t shape x buffer kinds "
+               "change the dimension or exceed a clipped bound; element writes; copy, assign in both directions, writes to the copy; element-type casts to f64/f32/i8/u8/i16 and kind casts to "
+               "dynamic_ndarray / a dynamic ndarray_t, whose result must have the object's shape and converted values) for 12 ndarray_t shape x buffer kinds and the legacy fixed_ndarray / hybrid_ndarray / dynamic_ndarray "
                "(dynamic / fixed-dim / bounded-dim / constant / clipped shape x dynamic / fixed / bounded buffer) x row- and column-major layout, plus seeded histories; after every "
                "action: return value, shape, dim, size, every element by logical index and 'buffer is a permutation of the elements' for the object and its copy; "
                "mutable views (mutable_flatten / mutable_reshape / mutable_slice / mutable_ref over the reshape and slice case tables of C03 / C05): for every index of the view a marker is "
                "written through the view and the set of changed source positions must be exactly the one position the reference view reads there (Denote mutable_write)")
     ck.exhaustive = True
-    ck.assumptions += ["the legacy classes (fixed_ndarray, hybrid_ndarray, dynamic_ndarray) and cast are not driven by this machine yet",
+    ck.assumptions += ["casts to the 15 ndarray kind tags and to fixed / hybrid kinds need a compile-time source shape: they are exercised by the C09 kinds matrix (op cast), not by this machine", "element-type casts of an ndarray_t over a bounded buffer (static_vector) and kind-tag casts from fixed-dimension run-time shapes do not compile (loud limitations)",
                        "contents after an accepted resize are not specified by the property: the harness refills the array after every accepted resize"]
     return ck.finish()
 
